@@ -329,6 +329,7 @@ func (hostileEngine) Run(ctx *fw.Ctx, cs any) {
 		d := pkt.Msg6(1, 0xca0002, []pkt.Opt6{pkt.O6(pkt.OptClientID6, pkt.DUIDLL([]byte{2, 0xca, 0xca, 0xca, 0, 2})), pkt.IAPD(1, 0, 0, nil), pkt.IANA(1, 0, 0, nil), pkt.ORO(23)})
 		add(true, d, "canary6", true)
 	}
+	job.LogLevel = caseLogLevel(c.Seed)
 	out := RunChain(job, ctx.Scratch, 150*time.Second)
 	conf := fmt.Sprintf("v4 chain %v, v6 chain %v, listener %q", chainStr(job.V4, job.HasV4), chainStr(job.V6, job.HasV6), job.Iface)
 	ctx.Eval("C01", int64(len(out.Res)))
